@@ -201,12 +201,18 @@ def lst(items, f=str):
 # findings / replays / evidence
 
 def load_findings(prop):
-    path = os.path.join(VERIF, "known_findings.json")
-    if not os.path.exists(path):
-        return []
-    with open(path) as f:
-        data = json.load(f)
-    return [e for e in data.get("findings", []) if e["property"] == prop and e.get("status") == "open"]
+    out = []
+    paths = [os.path.join(VERIF, "known_findings.json")]
+    d = os.path.join(VERIF, "known_findings.d")
+    if os.path.isdir(d):
+        paths += [os.path.join(d, fn) for fn in sorted(os.listdir(d)) if fn.endswith(".json")]
+    for path in paths:
+        if not os.path.exists(path):
+            continue
+        with open(path) as f:
+            data = json.load(f)
+        out += [e for e in data.get("findings", []) if e["property"] == prop and e.get("status") == "open"]
+    return out
 
 
 def write_replay(prop, obj):
@@ -235,13 +241,18 @@ class Report:
         self.traces_validated = 0
         self.notes = []
         self.rule = ""
+        self._per_kind = {}
 
-    def case(self, key, nontrivial=True, sample=None):
+    def case(self, key, nontrivial=True, sample=None, kind=""):
+        """one explored case; `kind` groups samples (at most 2 written out per kind, preferring non-trivial ones)"""
         self.evaluations += 1
         if nontrivial:
             self.keys.add(key if isinstance(key, str) else json.dumps(key, sort_keys=True, default=str))
-        if sample is not None and len(self.samples) < 6:
-            self.samples.append(sample)
+        if sample is not None:
+            k = self._per_kind.setdefault(kind, [])
+            if len(k) < 2 and nontrivial and len(self.samples) < 12:
+                k.append(1)
+                self.samples.append(sample)
 
     def count(self, name, k=1):
         self.hist[name] = self.hist.get(name, 0) + k
